@@ -21,28 +21,31 @@ Definition sq (q : Q) : option Q := Some q.
 Definition dg (k : Z) (v : Q) : Z * Q := (k, v).
 Definition rc (b w : Q) : option (Q * Q) := Some (b, w).
 Definition norc : option (Q * Q) := None.
-Definition bd (lo hi : Q) (ml : kv) : band := mkBand (Some (lo, hi)) ml.
-Definition bdall (ml : kv) : band := mkBand None ml.
+Definition bd (lo hi : Q) (ml pmd pdl : kv) : band := mkBand (Some (lo, hi)) ml pmd pdl.
+Definition bdall (ml pmd pdl : kv) : band := mkBand None ml pmd pdl.
+Definition vq (q : Q) : kv := Val q.
 Definition pf (id : Z) (t : ptype) (bs : list band) : profile := mkProf id t bs.
 Definition cl (from to : Z) (t : ptype) (id : option Z) : pcall := mkCall from to t id.
-(* a carrier as the ROADM receives it; the shares are not inputs of anything the ROADM computes *)
-Definition ch (f baud_db slot_db off p : Q) : chan := mkC f baud_db slot_db off p 1 0 0.
+(* a carrier as the ROADM receives it (pmd [s] and pdl [dB] are squared here); the shares are not inputs of
+   anything the ROADM computes *)
+Definition ch (f baud_db slot_db off p pmd pdl : Q) : chan := mkC f baud_db slot_db off p 1 0 0 (pmd * pmd) (pdl * pdl).
 Definition xg (deg from : Z) (l : list chan) : Z * Z * list chan := (deg, from, l).
 
 Definition cross_s (r : roadm) (x : Z * Z * list chan) : string :=
   let '(deg, from, l) := x in
   match propagate r deg from l with
   | Err e => append "E:" e
-  | Ok o => join "|" [qlist_s (map cp (o_chans o)); qlist_s (o_loss o); q_s (o_ref_out o); q_s (o_ref_loss o)]
+  | Ok o => join "|" [qlist_s (map cp (o_chans o)); qlist_s (o_loss o); q_s (o_ref_out o); q_s (o_ref_loss o);
+                      qlist_s (map cpmd2 (o_chans o)); qlist_s (map cpdl2 (o_chans o))]
   end.
 
 (* element level: elements.Roadm(params=...) ; set_roadm_paths(...)* ; ref_carrier, ref_pch_in_dbm ; crossings *)
-Definition runA (k : keys3) (dp dd dw : list (Z * Q)) (profs : list profile) (calls : list pcall)
+Definition runA (k : keys3) (gpmd gpdl : Q) (dp dd dw : list (Z * Q)) (profs : list profile) (calls : list pcall)
                 (rcar : option (Q * Q)) (rin : list (Z * Q)) (xs : list (Z * Z * list chan)) : string :=
   match roadm_params k with
   | Err e => append "R:" e
   | Ok (a, b, c) =>
-      match set_paths (prof_dict profs) calls [] with
+      match set_paths (global_band gpmd gpdl) (prof_dict profs) calls [] with
       | Err e => append "R:" e
       | Ok ps => join ";" (map (cross_s (mkRoadm a b c dp dd dw rcar rin ps)) xs)
       end
@@ -50,7 +53,7 @@ Definition runA (k : keys3) (dp dd dw : list (Z * Q)) (profs : list profile) (ca
 
 (* loader level: equipment entry + element config -> Roadm ; design step (per-degree targets) ; crossings on the
    designed element (its internal paths and reference input powers are those observed on the implementation) *)
-Definition runL (eq el : keys3) (dp dd dw : list (Z * Q)) (next : list Z) (profs : list profile)
+Definition runL (eq el : keys3) (gpmd gpdl : Q) (dp dd dw : list (Z * Q)) (next : list Z) (profs : list profile)
                 (calls : list pcall) (rcar : option (Q * Q)) (rin : list (Z * Q))
                 (xs : list (Z * Z * list chan)) : string :=
   match load_policy eq el with
@@ -59,7 +62,7 @@ Definition runL (eq el : keys3) (dp dd dw : list (Z * Q)) (next : list Z) (profs
       match set_targets (mkRoadm a b c dp dd dw rcar rin []) next with
       | Err e => append "R:" e
       | Ok r1 =>
-          match set_paths (prof_dict profs) calls [] with
+          match set_paths (global_band gpmd gpdl) (prof_dict profs) calls [] with
           | Err e => append "R:" e
           | Ok ps =>
               let r := mkRoadm (npow r1) (npsd r1) (npsw r1) (dpow r1) (dpsd r1) (dpsw r1) rcar rin ps in
